@@ -85,6 +85,21 @@ def id_sources(repo, rep):
                          "a carried identifier must be read from the previous column (it - 1) at the row given by this slot's own "
                          "local match")
             continue
+        # the local-match table written column by column (the loop form of np.hstack([first column] + [match(..) for it in ..])):
+        #   table[:, it:it+1] = match_consecutive_partitions(fp[:, it-1:it+1], ...)     before any identifier is issued
+        mv = v
+        while isinstance(mv, ast.Call) and isinstance(mv.func, ast.Attribute) and mv.func.attr in ("reshape", "astype") :
+            mv = mv.func.value
+        if isinstance(mv, ast.Call) and call_name(mv) == "match_consecutive_partitions" and isinstance(t.slice, ast.Tuple) and len(t.slice.elts) == 2 \
+                and isinstance(t.slice.elts[1], ast.Slice) and t.slice.elts[1].lower is not None and t.slice.elts[1].upper is not None:
+            L = unparse(t.slice.elts[1].lower).replace(" ", "")
+            U = unparse(t.slice.elts[1].upper).replace(" ", "")
+            cols = {(unparse(e.lower).replace(" ", ""), unparse(e.upper).replace(" ", "")) for a_ in list(mv.args) + [k_.value for k_ in mv.keywords]
+                    if isinstance(a_, ast.Subscript) and isinstance(a_.slice, ast.Tuple) for e in a_.slice.elts if isinstance(e, ast.Slice) and e.lower is not None and e.upper is not None}
+            first_issue = min([(m_.lineno, m_.col_offset) for m_, _t in stores if unparse(m_.value) == counter] or [(10 ** 9, 0)])
+            if U == f"{L}+1" and cols == {(f"{L}-1", f"{L}+1")} and (n.lineno, n.col_offset) < first_issue:
+                rep.ok("R-C19-1", where, unparse(n)[:100], "column `it` of the local-match table = matches between columns it-1 and it (built before identifiers are issued)")
+                continue
         rep.fail("R-C19-1", fi.file, n.lineno, fi.qualname, unparse(n)[:120],
                  "identifiers may come from two sources only: the running counter (then incremented) or the matched partition of the "
                  "previous step; anything else breaks '0..N-1 in order of first appearance' or uniqueness within a step")
